@@ -31,3 +31,5 @@ func verifPreemptBound(n int)
 func verifDeepEqual(a, b interface{}) bool
 func verifFreeze(root interface{})
 func verifDeepEqualExcept(a, b interface{}, skip string) bool
+func verifSettle()
+func verifRender(x interface{})
